@@ -85,11 +85,11 @@ func VerifC14ConfigFlip() {
 	dim := verifIntRange(0, 9)
 	verifFlipDim2 = -1
 	if verifBound(0, 1) == 1 {
-		verifFlipDim2 = verifIntRange(dim, 9) // thorough: every pair of settings (dim itself = only one)
+		verifFlipDim2 = (dim + verifIntRange(0, 3)) % 10 // thorough: the setting alone and together with each of the next three
 	}
 	flip := verifIntRange(0, 1) == 1
 	in1 := []byte("a b\nc,d\n")
-	in2 := append(verifBytes(verifIntRange(1, verifBound(2, 3))), '\n')
+	in2 := append(verifBytes(verifIntRange(1, 2)), '\n')
 	for _, b := range in2 {
 		verifAssume(b != '"' && b != '\r' && b != 0xEF)
 	}
